@@ -367,8 +367,9 @@ contract(f"{SP}::SingleWindowSplitter.get_cutoffs", "C01", cases=[c + "|index" f
          pre=lambda A: True if A.y is None else sw_pre(A),
          raises=[("ValueError", lambda A: A.y is None)],
          returns=lambda A: Seq(1, lambda i: ops.simp(Z(yidx(A.y).len) - fh_last(A.self.attrs["fh"]) - 1), kind="ndarray"), frame=lambda A: [A.self], applicable=splitter_shape_ok)
-contract(f"{SP}::SingleWindowSplitter.get_n_splits", "C01", cases=["wint"],
-         inputs=lambda B, case: {"self": sym_single(B, case), "y": None}, returns=lambda A: 1)
+contract(f"{SP}::SingleWindowSplitter.get_n_splits", "C01,C20", cases=["wint", "wnone"],
+         inputs=lambda B, case: {"self": sym_single(B, case), "y": None},
+         raises=[("ValueError", lambda A: Not(sw_pre(A)))], returns=lambda A: 1)
 
 
 # ----------------------------------------------------------------------------- level 2: the property statement
